@@ -202,7 +202,7 @@ pub fn generate(rng: &mut Rng, thorough: bool, out: &mut Out) {
         let (q, r) = run_chain3(h);
         out.case(q, r);
     }
-    let n = if thorough { 20000 } else { 1500 };
+    let n = if thorough { 20000 } else { 4000 };
     for i in 0..n {
         match i % 7 {
             0 => {
